@@ -152,6 +152,22 @@ def check_traj(traj, parent, taus, cell_counts):
                                            case))
                     except Exception as e:
                         vs.append(viol(key + "|reversal_raises", f"{type(e).__name__}", case))
+    # the window-mode flag given as a truthy / falsy value that is not the Python singleton
+    if L >= 3:
+        for flag, nonc in ((np.True_, True), (np.bool_(1), True), (1, True), (np.False_, False), (0, False)):
+            for tau in taus[1:3]:
+                try:
+                    Tf = np.asarray(MSM(arr, total_num_cells=cell_counts[0]).get_one_tau_transition_matrix(
+                        tau, noncorrelated_windows=flag).toarray(), dtype=float)
+                    Ef, _ = model_matrix(traj, tau, nonc, cell_counts[0])
+                    if not np.allclose(Tf, Ef, rtol=0, atol=TOL):
+                        vs.append(viol(f"C12|traj={ts}|flag={type(flag).__name__}:{flag}|tau={tau}", "window mode given as a "
+                                       f"{'truthy' if nonc else 'falsy'} non-bool value selects the wrong mode", case,
+                                       expected=Ef.tolist(), observed=Tf.tolist()))
+                        break
+                except Exception as e:
+                    vs.append(viol(f"C12|traj={ts}|flag={type(flag).__name__}|raises", f"{type(e).__name__}", case))
+                    break
     # NaN-free trajectories handed over with an integer dtype (and a numpy integer cell count)
     if L >= 2 and all(x is not None for x in traj):
         ai = np.array(traj, dtype=np.int64)
